@@ -7,7 +7,7 @@ use dashu_base::{AbsOrd, BitTest};
 use num_order::NumOrd;
 
 fn tame_exp(e: isize) -> bool {
-    e.abs() <= 1500
+    e.unsigned_abs() <= 1500
 }
 
 pub fn exec_xc(w: &mut World, op: &Op, rest: &str, env: &mut Env) {
@@ -41,7 +41,7 @@ pub fn exec_xc(w: &mut World, op: &Op, rest: &str, env: &mut Env) {
         }
         "fd" => {
             let (x, y) = (&w.f[a], &w.d[b]);
-            if !x.repr().is_finite() || !y.repr().is_finite() || !tame_exp(x.repr().exponent()) || y.repr().exponent().abs() > 500 {
+            if !x.repr().is_finite() || !y.repr().is_finite() || !tame_exp(x.repr().exponent()) || y.repr().exponent().unsigned_abs() > 500 {
                 return env.skip();
             }
             env.emit_ord("num", x.num_cmp(y));
@@ -51,7 +51,7 @@ pub fn exec_xc(w: &mut World, op: &Op, rest: &str, env: &mut Env) {
         "rf" => {
             let r = &w.r[a];
             let (x, y) = (&w.f[b], &w.d[b]);
-            if !x.repr().is_finite() || !y.repr().is_finite() || !tame_exp(x.repr().exponent()) || y.repr().exponent().abs() > 500 {
+            if !x.repr().is_finite() || !y.repr().is_finite() || !tame_exp(x.repr().exponent()) || y.repr().exponent().unsigned_abs() > 500 {
                 return env.skip();
             }
             env.emit_ord("num_f", r.num_cmp(x));
@@ -82,7 +82,7 @@ pub fn exec_xc(w: &mut World, op: &Op, rest: &str, env: &mut Env) {
                 env.emit_ord("f_i64", w.f[b].num_cmp(&p));
                 env.emit_ord("f_f64", w.f[b].num_cmp(&f));
             }
-            if w.d[b].repr().is_finite() && w.d[b].repr().exponent().abs() <= 500 {
+            if w.d[b].repr().is_finite() && w.d[b].repr().exponent().unsigned_abs() <= 500 {
                 env.emit_ord("d_f64", w.d[b].num_cmp(&f));
             }
         }
